@@ -62,7 +62,7 @@ class MemV:
 
 class Sem:
     def __init__(self, B, inputs=None, entity_outputs=None):
-        """inputs: {variable name: value} overriding top-level typed constant declarations."""
+        """inputs: {variable name: {signal: value}} overriding top-level constant declarations."""
         self.B = B
         self.inputs = inputs or {}
         self.entity_outputs = entity_outputs or {}
@@ -207,10 +207,17 @@ class Sem:
                 raise Rejected("Signal declaration needs a scalar")
             # named typed-constant declarations are the program's inputs
             if top and st.name in self.inputs and type(st.value).__name__ in ("SignalLiteral", "NumberLiteral"):
-                sv = SigV(sv.type, self.inputs[st.name], sv.implicit_id)
+                d = self.inputs[st.name]
+                if sv.type in d:
+                    sv = SigV(sv.type, d[sv.type], sv.implicit_id)
+                elif len(d) == 1:
+                    sv = SigV(sv.type, next(iter(d.values())), sv.implicit_id)
             return sv
         if type_name == "Bundle":
             if isinstance(v, BunV):
+                if top and st.name in self.inputs and type(st.value).__name__ == "BundleLiteral":
+                    d = self.inputs[st.name]
+                    v = BunV({t: d.get(t, val) for t, val in v.members.items()})
                 return v
             raise Rejected("Bundle declaration needs a bundle")
         if type_name == "Entity":
@@ -376,6 +383,8 @@ class Sem:
                         res[t] = B.ite(keep, src, B.const(0))
                     elif isinstance(out, IntV):
                         res[t] = B.ite(keep, B.const(out.v), B.const(0))
+                    elif isinstance(out, SigV):
+                        res[t] = B.ite(keep, out.v, B.const(0))
                     else:
                         raise SemError("filter output")
                 return BunV(res)
